@@ -22,9 +22,9 @@ from gen import coverage as G
 
 ID = "C05"
 PROPS = ["IsoVerif/Props/C05.lean", "IsoVerif/Props/C05Multi.lean", "IsoVerif/Props/C05Printers.lean",
-         "IsoVerif/Props/C05Edge.lean", "IsoVerif/Props/C05Contigs.lean"]
+         "IsoVerif/Props/C05Edge.lean", "IsoVerif/Props/C05Contigs.lean", "IsoVerif/Props/C05Names.lean"]
 TARGETS = ["IsoVerif.Props.C05", "IsoVerif.Props.C05Multi", "IsoVerif.Props.C05Printers", "IsoVerif.Props.C05Edge",
-           "IsoVerif.Props.C05Contigs"]
+           "IsoVerif.Props.C05Contigs", "IsoVerif.Props.C05Names"]
 GEN_DEPS = ["Prims", "Constants", "Enums", "EventClasses", "PrinterTables"]
 LEVEL = "proof"
 RULE = ("synthetic coverage dictionaries (bin counts 1..520 around the 128-bin minimum, thresholds at the 1 % boundary, "
@@ -58,6 +58,17 @@ ASSUMPTIONS = ["CPython int semantics = Lean Int; x // 256 = Int ediv for the po
                "(the collector reads the chromosome length from the first file); ValidFiles in Props/C05Multi.lean"]
 
 _AP = None
+
+
+def _sub_prefix(ctx):
+    """output prefix of the pipeline runs of the sub-modules (C05multi / C05edge / C05contigs / C05short / C15print use
+    `pipeline.std_args` without naming one): drawn from pipeline.PREFIX_POOL by the run's seed, recorded in the evidence and
+    in every failure input of these modules (`prefix`), honoured by `replay`"""
+    import random
+    import pipeline as P
+    pf = random.Random("c05-prefix-%s" % ctx.seed).choice(P.PREFIX_POOL)
+    ctx.extra["sub_module_prefix"] = pf
+    return pf
 
 
 def _impl():
@@ -361,6 +372,15 @@ def _sub_regions(rng, alns, n):
 
 
 def correspondence(ctx):
+    import pipeline as P
+    P.use_prefix(_sub_prefix(ctx))
+    try:
+        _correspondence(ctx)
+    finally:
+        P.use_prefix("S")
+
+
+def _correspondence(ctx):
     rng = ctx.rng
     quick = ctx.tier == "quick"
     D = ctx.driver
@@ -507,6 +527,9 @@ def correspondence(ctx):
     # contig sets of FASTA / BAM header / annotation that differ (props/C05contigs.py, Props/C05Contigs.lean)
     from props import C05contigs
     C05contigs.correspondence(ctx)
+    # names of the per-chromosome part files / auxiliary files (Model/PartNames.lean, Props/C05Names.lean)
+    from props import C05names
+    C05names.correspondence(ctx)
 
 
 def _first_cluster(alns):
@@ -746,11 +769,17 @@ def check_pipeline(spec):
             paths = ds.write(os.path.join(d, "in"))
             out = os.path.join(d, "out")
             extra = (["--high_memory"] if mode == "high_memory" else []) + \
-                    (["--min_mapq", str(spec["min_mapq"])] if spec.get("min_mapq") else [])
-            rc, log = P.run_isoquant(out, P.std_args(paths, genedb=genedb, extra=extra))
+                    (["--min_mapq", str(spec["min_mapq"])] if spec.get("min_mapq") else []) + \
+                    (["--sqanti_output"] if spec.get("sqanti") and genedb else [])
+            # the output prefix is part of the input: any name the user may give with -p (pipeline.PREFIX_POOL holds names
+            # that occur inside IsoQuant's own file suffixes: audit2-A F1)
+            prefix = spec.get("prefix", "S")
+            rc, log = P.run_isoquant(out, P.std_args(paths, prefix=prefix, genedb=genedb, extra=extra))
             if rc != 0:
                 return ("pipeline_fails:" + mode, log[-600:])
-            files = P.out_files(out)
+            files = {"S" + fn[len(prefix):]: path for fn, path in P.out_files(out, prefix).items() if fn.startswith(prefix)}
+            if "S.corrected_reads.bed" not in files:
+                return ("no_outputs:" + mode, "exit code 0 but %s/%s.corrected_reads.bed does not exist" % (prefix, prefix))
             bed = collections.Counter(r[3] for r in P.read_bed(files["S.corrected_reads.bed"]))
             missing = sorted((expected - bed).elements())
             if missing:
@@ -817,6 +846,19 @@ def witness_alns():
 
 
 def oracle(ctx, disagreements, broken):
+    import pipeline as P
+    pf = _sub_prefix(ctx)
+    P.use_prefix(pf)
+    try:
+        _oracle(ctx, disagreements, broken)
+    finally:
+        P.use_prefix("S")
+        for f in ctx.failures:
+            if isinstance(f.get("input"), dict) and f["input"].get("level") != "pipeline":
+                f["input"].setdefault("prefix", pf)
+
+
+def _oracle(ctx, disagreements, broken):
     rng = ctx.rng
     quick = ctx.tier == "quick"
     n_cases = 0
@@ -900,6 +942,13 @@ def oracle(ctx, disagreements, broken):
                                               "two_piles", "random_profile", "thin_long"]),
                           "seed": rng.randint(0, 10 ** 6), "genes": rng.random() < 0.5,
                           "min_mapq": rng.choice([0, 0, 10]), "unmapped": rng.choice([0, 3]), "low_mapq": rng.random() < 0.7})
+    # the output prefix is drawn per run (audit2-A F1: it used to be the constant `S`); the regression inputs walk through
+    # the pool so that every quick run meets a prefix inside a file suffix, one of them `S` + --sqanti_output
+    import pipeline as P
+    for i, spec in enumerate(specs):
+        spec["prefix"] = P.PREFIX_POOL[i] if i < 4 else P.pick_prefix(rng)
+        spec["sqanti"] = bool(spec.get("genes")) and (spec["prefix"] == "S" or rng.random() < 0.3)
+        ctx.count("oracle_pipeline_prefix:" + spec["prefix"] + ("+sqanti" if spec["sqanti"] else ""))
     for spec in specs:
         if ctx.elapsed() > (150 if quick else 1000):
             ctx.notes.append("pipeline oracle stopped early (time budget)")
@@ -918,6 +967,11 @@ def oracle(ctx, disagreements, broken):
     C05edge.oracle(ctx, disagreements, broken)
     from props import C05contigs
     C05contigs.oracle(ctx)
+    # 6. file names between the chromosome tasks and the merge (any output prefix); short-read BAM with its own contig
+    #    set; reference sequence names that cannot be part of a file name (props/C05names.py, props/C05short.py)
+    from props import C05names, C05short
+    C05names.oracle(ctx, disagreements)
+    C05short.oracle(ctx)
 
 
 def _report_alns(ctx, alns, small=False):
@@ -934,6 +988,15 @@ def _report_alns(ctx, alns, small=False):
 
 
 def replay(ctx, failure):
+    import pipeline as P
+    P.use_prefix(failure["input"].get("prefix", "S") if isinstance(failure.get("input"), dict) else "S")
+    try:
+        return _replay(ctx, failure)
+    finally:
+        P.use_prefix("S")
+
+
+def _replay(ctx, failure):
     inp = failure["input"]
     if str(failure.get("kind", "")).startswith("printers:"):
         from props import C15print
@@ -953,6 +1016,12 @@ def replay(ctx, failure):
     if str(inp.get("level", "")).startswith("multi"):
         from props import C05multi
         return C05multi.replay(ctx, failure)
+    if inp.get("level") == "names":
+        from props import C05names
+        return C05names.replay(ctx, failure)
+    if inp.get("level") == "short":
+        from props import C05short
+        return C05short.replay(ctx, failure)
     return False
 
 
